@@ -217,6 +217,42 @@ pub fn render(spec: &EnumSpec) -> String {
         seen_names.push(m.clone());
         o.push_str(&format!("trait FbIs{i} {{ fn is_{m}(&self) -> Absent {{ Absent }} }}\nimpl<X> FbIs{i} for X {{}}\n", i = i, m = m));
     }
+    // compile-time probe of the carried TYPES (Debug text cannot tell `&str` from `&&str`)
+    {
+        let concrete = |t: &FieldTy| -> Option<String> {
+            match t {
+                FieldTy::T | FieldTy::U | FieldTy::Raw(..) | FieldTy::Nd => None,
+                other => Some(other.ty().replace("'a", "'static")),
+            }
+        };
+        let mut probe = String::new();
+        for v in spec.variants.iter() {
+            if v.disabled || name_unsettled(&v.ident) {
+                continue;
+            }
+            if let Kind::Tuple(tf) = &v.kind {
+                let tys: Option<Vec<String>> = tf.iter().map(|t| concrete(t)).collect();
+                if let Some(tys) = tys {
+                    let m = refsem::snakify(&v.ident);
+                    let tup = |pre: &str| match tys.len() {
+                        0 => "()".to_string(),
+                        1 => format!("{}{}", pre, tys[0]),
+                        _ => format!("({})", tys.iter().map(|t| format!("{}{}", pre, t)).collect::<Vec<_>>().join(", ")),
+                    };
+                    probe.push_str(&format!(
+                        "    let _: fn(EC) -> Option<{v}> = EC::try_as_{m};\n    let _: for<'r> fn(&'r EC) -> Option<{r}> = EC::try_as_{m}_ref;\n    let _: for<'r> fn(&'r mut EC) -> Option<{w}> = EC::try_as_{m}_mut;\n",
+                        v = tup(""),
+                        r = tup("&'r "),
+                        w = tup("&'r mut "),
+                        m = m
+                    ));
+                }
+            }
+        }
+        if !probe.is_empty() && spec.generics.iter().all(|g| !matches!(g, Generic::Lifetime { .. })) {
+            o.push_str(&format!("#[allow(dead_code)]\nfn _accessor_types() {{\n{}}}\n", probe));
+        }
+    }
     o.push_str("pub fn run(ctx: &mut vf_core::Ctx) {\n    let mut obs: Vec<(usize, usize, String, String)> = Vec::new();\n");
     for (vi, v) in spec.variants.iter().enumerate() {
         let ftys = fields_of(&v.kind);
